@@ -26,6 +26,7 @@ def render(rdflib) -> str:
     out.append(f"Definition xsd_string : list N := {_s(T._XSD_STRING)}.")
     out.append(f"Definition xsd_integer : list N := {_s(T._XSD_INTEGER)}.")
     out.append(f"Definition xsd_decimal : list N := {_s(T._XSD_DECIMAL)}.")
+    out.append(f"Definition xsd_boolean : list N := {_s(T._XSD_BOOLEAN)}.")
     out.append(f"Definition xsd_duration : list N := {_s(T._XSD_DURATION)}.")
     out.append(f"Definition xsd_yearmonthduration : list N := {_s(T._XSD_YEARMONTHDURATION)}.")
     out.append("(* rdflib.term._NUMERIC_LITERAL_TYPES *)")
